@@ -64,6 +64,25 @@ pub fn gen_stream(rng: &mut Rng, n: usize, thorough: bool) -> Vec<Case> {
         let (b, what) = corrupt_pub(rng, &fc);
         out.push((format!("stream any - {} {}", opss, hex(&b)), format!("clean=0|corrupt={}", what)));
     }
+    // every kind of typed section once with SHF_COMPRESSED set in its flags, read through each view of the stream parser
+    // (what the stream parser hands out for such a section is outside C07's query-level clause, but it is what the model
+    // says it is: a drift shows as a disagreement)
+    for _ in 0..2 {
+        let fc = crate::gen3::rand_object_kind(rng, true, true);
+        let entsz = if fc.obj.is64 { 64usize } else { 40 };
+        let (flags_off, flags_w) = if fc.obj.is64 { (8usize, 8usize) } else { (8, 4) };
+        let shoff = fc.built.shoff as usize;
+        for k in 1..(fc.built.shnum as usize).min(40) {
+            let at = shoff + k * entsz;
+            if at + entsz > fc.built.bytes.len() { break; }
+            let ty = crate::enc::get(&fc.built.bytes[at + 4..at + 8], fc.obj.le, 4) as u32;
+            if ![crate::elfbuild::SHT_NOTE, crate::elfbuild::SHT_STRTAB, crate::elfbuild::SHT_REL, crate::elfbuild::SHT_RELA, crate::elfbuild::SHT_PROGBITS].contains(&ty) { continue; }
+            let mut b = fc.built.bytes.clone();
+            let cur = crate::enc::get(&b[at + flags_off..at + flags_off + flags_w], fc.obj.le, flags_w);
+            crate::enc::put_at(&mut b, at + flags_off, fc.obj.le, flags_w, cur | 0x800);
+            out.push((format!("stream any - S{},S{} {}", k, k, hex(&b)), format!("clean=0|compressed-flag={}", ty)));
+        }
+    }
     // header-only files of both classes, with 0..12 trailing bytes (the smallest files either parser can open)
     for is64 in [false, true] {
         for le in [false, true] {
